@@ -28,6 +28,7 @@ type specEnv struct {
 	bound   map[string]specVal
 	guard   Term
 	nq      *int
+	loop    *loopInfo // clause attached to this loop: its body's variables shadow outer ones
 }
 
 func specErr(format string, a ...any) unsupportedErr {
@@ -312,6 +313,45 @@ func (e *specEnv) ident(name string) specVal {
 		return sv
 	}
 	fn := e.fr.fn
+	if e.loop != nil {
+		// innermost scope first: variables declared in the loop body
+		for _, b := range fn.Blocks {
+			if !e.loop.body[b.Index] {
+				continue
+			}
+			for _, ins := range b.Instrs {
+				if al, ok := ins.(*ssa.Alloc); ok && al.Comment == name {
+					if cell, ok := e.fr.vals[al]; ok {
+						et := elemTypeOfAddr(al)
+						if kindOf(et) == kStruct {
+							return specVal{V: cell, T: al.Type()}
+						}
+						return specVal{V: v.deref(e.st, cell, et, e.g()), T: et}
+					}
+				}
+			}
+		}
+		var found ssa.Value
+		for _, b := range fn.Blocks {
+			if !e.loop.body[b.Index] {
+				continue
+			}
+			for _, ins := range b.Instrs {
+				if dr, ok := ins.(*ssa.DebugRef); ok && !dr.IsAddr {
+					if id, ok := dr.Expr.(*ast.Ident); ok && id.Name == name {
+						if _, have := e.fr.vals[dr.X]; have {
+							if found == nil {
+								found = dr.X
+							}
+						}
+					}
+				}
+			}
+		}
+		if found != nil {
+			return specVal{V: v.value(e.fr, found), T: found.Type()}
+		}
+	}
 	if e.result != nil {
 		res := e.resType
 		if name == "result" && res.Len() == 1 {
@@ -927,6 +967,44 @@ func (e *specEnv) call(c SCall) specVal {
 		case "contains":
 			a, b := e.eval(c.Args[0]), e.eval(c.Args[1])
 			return specVal{V: Sc{app(SBool, "str.contains", a.V.(Sc).T, b.V.(Sc).T)}, T: types.Typ[types.Bool]}
+		case "emitted":
+			lit, ok := c.Args[0].(SLit)
+			if !ok || lit.Kind != "string" {
+				panic(specErr("emitted() wants a string literal"))
+			}
+			cur := v.emitCount(e.st, lit.Val)
+			base := v.emitCount(e.old, lit.Val)
+			return specVal{V: Sc{Sub(cur, base)}, T: types.Typ[types.Int]}
+		case "emittedArg":
+			lit, ok := c.Args[0].(SLit)
+			if !ok || lit.Kind != "string" || len(c.Args) < 3 {
+				panic(specErr("emittedArg(format, n, j[, int|string]) wants a string literal first"))
+			}
+			n := e.eval(c.Args[1]).V.(Sc).T
+			jl, ok := c.Args[2].(SLit)
+			if !ok || jl.Kind != "int" {
+				panic(specErr("emittedArg: operand index must be an integer literal"))
+			}
+			var j int
+			fmt.Sscanf(jl.Val, "%d", &j)
+			so := SStr
+			var ty types.Type = types.Typ[types.String]
+			if len(c.Args) > 3 {
+				if id, ok := c.Args[3].(SIdent); ok && id.Name == "int" {
+					so, ty = SInt, types.Typ[types.Int]
+				}
+			}
+			if t, ok := e.st.ghost[eaKey(lit.Val, j)]; ok {
+				so = Sort(string(t.Sort)[len("(Array Int ") : len(t.Sort)-1])
+				if so == SInt {
+					ty = types.Typ[types.Int]
+				} else {
+					ty = types.Typ[types.String]
+				}
+			}
+			base := v.emitCount(e.old, lit.Val)
+			arr := v.emitArr(e.st, lit.Val, j, so)
+			return specVal{V: Sc{Select(arr, Add(base, n), so)}, T: ty}
 		case "called", "errSeen":
 			callee := e.resolveFuncRef(c.Args[0])
 			if callee == nil {
